@@ -2,17 +2,17 @@ SPECIFICATION Spec
 CONSTANTS
   Node = {1, 2, 3}
   RF = 3
-  Txs <- TxDef2
-  MaxView = 1
+  Txs <- TxDefP
+  MaxView = 2
   MaxDup = 1
   MaxCrash = 1
   MaxLose = 1
   QuorumDelta = 0
   CheckConfirm = TRUE
-  HoldBack = {}
+  HoldBack <- HoldDef
   PinSeq = TRUE
   TxStream <- StreamDef
-VIEW View
-INVARIANTS CntShape OneConfirmedPerSeq ConfirmedPrefixAgree AckedOnQuorum QuorumCountMeansQuorumHeld
+CONSTRAINT Bound
+INVARIANTS Emit CntShape OneConfirmedPerSeq ConfirmedPrefixAgree AckedOnQuorum QuorumCountMeansQuorumHeld
 PROPERTY AckedStable
 CHECK_DEADLOCK FALSE
